@@ -42,6 +42,7 @@ func runC17(c *Ctx) {
 	c17Cardinal(&g17{c, NewRng(c.Seed, 1708)}, 300*scale)
 	c17Primes(&g17{c, NewRng(c.Seed, 1709)}, scale)
 	c17Exhaustive(&g17{c, NewRng(c.Seed, 1710)})
+	c17More(&g17{c, NewRng(c.Seed, 1711)}, 1500*scale)
 }
 
 // ---------------------------------------------------------------------------------- generators
@@ -424,6 +425,49 @@ func (g *g17) emit(lhs string, f func() string) {
 	}
 	g.c.Count("op." + op)
 	g.c.Emit(lhs, safely(f))
+}
+
+// outs: the "reused output" dimension. A quarter of the calls hand the method output receivers that already
+// hold a longer random value (saferith's Int.Add / SetBig work on the receiver's limbs without clearing
+// them, so a reused — not only an aliased — output was a source of wrong results). Such lines carry the op
+// prefix "r!"; the driver compares them by value and reports a difference under the key reused-output.
+type outs struct {
+	g  *g17
+	on bool
+}
+
+func (g *g17) reuseIf(on bool) outs {
+	if on {
+		g.c.Count("out.reused")
+	}
+	return outs{g, on}
+}
+func (g *g17) reuse() outs { return g.reuseIf(g.r.IntN(4) == 0) }
+func (o outs) op(name string) string {
+	if o.on {
+		return "r!" + name
+	}
+	return name
+}
+
+// nat / int: a fresh receiver, or one pre-loaded with a random value longer than `hint` bits
+func (o outs) nat(hint int) *numct.Nat {
+	if !o.on {
+		return new(numct.Nat)
+	}
+	n := max(hint, 0) + 1 + o.g.r.IntN(200)
+	return numct.NewNatFromBig(o.g.randBits(n), n+o.g.r.IntN(3)*32)
+}
+func (o outs) int(hint int) *numct.Int {
+	if !o.on {
+		return new(numct.Int)
+	}
+	n := max(hint, 0) + 1 + o.g.r.IntN(200)
+	v := o.g.randBits(n)
+	if o.g.r.IntN(2) == 0 {
+		v.Neg(v)
+	}
+	return numct.NewIntFromBig(v, n+o.g.r.IntN(3)*32)
 }
 
 func mask(c int) *big.Int {
